@@ -252,3 +252,11 @@ def noncanonical_entry_path_and_subdirectory_update(sc, v):
 def detail_contains(sc, v, text=''):
     """the violation's message carries the given text (e.g. 'embedded null byte')"""
     return bool(text) and text in v.get('detail', '')
+
+
+def operation_is_subdirectory_update(sc, v):
+    """KF-D10-INDEX needs an update that STARTS in a sub-directory (the Manifest stack then has nothing above an unregistered
+    Manifest met there); the same IndexError from a whole-tree update is a different defect."""
+    import re
+    d = v.get('detail', '')
+    return bool(re.search(r"path='[^']", d) or re.search(r"op='update-sub'", d) or re.search(r"path2='[^']", d))
